@@ -92,8 +92,12 @@ func distMain(args []string) error {
 		wg.Add(1)
 		go func() {
 			defer wg.Done()
+			// one stub distributor (one listening port, kept-alive connections) per worker for all its scenarios: hundreds of thousands of
+			// scenarios must not use up the machine's ephemeral ports
+			host := newDistHost()
+			defer host.srv.Close()
 			for j := range ch {
-				ev, err := execDist(j.s, fmt.Sprintf("d%d", j.id), *seed)
+				ev, err := execDist(j.s, fmt.Sprintf("d%d", j.id), *seed, host)
 				if err == nil {
 					err = tw.writeRun(ev)
 				}
@@ -133,7 +137,35 @@ func distMain(args []string) error {
 	return nil
 }
 
-func execDist(s distScen, tag string, seed int64) ([]any, error) {
+// distHost is a stub distributor whose behaviour is set per scenario.
+type distHost struct {
+	srv *httptest.Server
+	mu  sync.Mutex
+	h   http.HandlerFunc
+}
+
+func newDistHost() *distHost {
+	d := &distHost{}
+	d.srv = httptest.NewServer(http.HandlerFunc(func(rw http.ResponseWriter, r *http.Request) {
+		d.mu.Lock()
+		h := d.h
+		d.mu.Unlock()
+		if h == nil {
+			http.Error(rw, "no scenario", 500)
+			return
+		}
+		h(rw, r)
+	}))
+	return d
+}
+
+func (d *distHost) set(h http.HandlerFunc) {
+	d.mu.Lock()
+	d.h = h
+	d.mu.Unlock()
+}
+
+func execDist(s distScen, tag string, seed int64, host *distHost) ([]any, error) {
 	names := make([]string, len(s.Wit))
 	for i := range names {
 		names[i] = fmt.Sprintf("l%d", i+1)
@@ -202,7 +234,7 @@ func execDist(s distScen, tag string, seed int64) ([]any, error) {
 	var mu sync.Mutex
 	events := []any{distEvent{E: "dist.start", Run: tag, Wit: s.Wit, Dist: s.Dist, Asked: []int{}, WName: wname}}
 	k := 0
-	srv := httptest.NewServer(http.HandlerFunc(func(rw http.ResponseWriter, r *http.Request) {
+	host.set(http.HandlerFunc(func(rw http.ResponseWriter, r *http.Request) {
 		body, _ := io.ReadAll(r.Body)
 		mu.Lock()
 		defer mu.Unlock()
@@ -281,7 +313,8 @@ func execDist(s distScen, tag string, seed int64) ([]any, error) {
 			http.Redirect(rw, r, "/moved"+r.URL.EscapedPath(), http.StatusTemporaryRedirect)
 		}
 	}))
-	defer srv.Close()
+	defer host.set(nil)
+	srv := host.srv
 	d, err := rest.NewDistributor(srv.URL, srv.Client(), logs, witV, dw)
 	if err != nil {
 		return nil, err
